@@ -397,6 +397,10 @@ func progCtxV(env *progEnv, variant int) *plush.Context {
 			return "P[" + n + ":<%= ci %>,<%= iv %>]", nil
 		})
 	}
+	// a slice with spare capacity: values made from it with + must not share its storage
+	spare := make([]interface{}, 2, 16)
+	spare[0], spare[1] = "s0", "s1"
+	ctx.Set("spare", spare)
 	progCtxCommon(ctx, env)
 	return ctx
 }
